@@ -3,7 +3,8 @@
 PROVED (shared with C09): the template lexer - parse_template / _detailed_tag_parser raise nothing but
 TemplateSyntaxError (every implicit IndexError / KeyError / TypeError site is an obligation) and terminate (loop variants).
 BOUNDED stand-in: parse_tag (550-line scanner with nested closures) - exhaustive enumeration, see harness/.
-NOT APPLICABLE: the quadratic time bound and regex back-tracking (cost semantics are not modelled).
+NOT decided deductively: the quadratic time bound and regex back-tracking (cost semantics are not modelled); a bounded
+time-budget stand-in on adversarial inputs is reported under coverage.bounded.
 """
 import contracts.c09  # noqa: F401
 from pyvc.contracts import REG
@@ -27,8 +28,25 @@ REG.bounded_check("bounded#parse_tag_all_short_strings", P, _bounded_all_strings
 REG.bounded_check("bounded#serialise_reparse_documented_grammar", P, _bounded_grammar,
                   note="re-parsing the canonical serialisation of every documented-grammar AST (bounded depth/width) gives the same structure")
 
+def _bounded_time(tier, repo):
+    import sys
+    for pth in (repo + "/src", repo):
+        if pth not in sys.path:
+            sys.path.insert(0, pth)
+    from django.conf import settings
+    if not settings.configured:
+        from tests.django_test_setup import setup_test_config
+        setup_test_config({"autodiscover": False})
+    r = contracts.c09._time_budget()
+    return {"space": "7 adversarial tag texts (runs of 28-46 backslashes / 40 escaped quotes in unterminated strings, 4000 quotes, 4000-character tag, 2000 percent signs), each lexed in a child process with a 4 s budget",
+            "evaluations": 7, "failures": [r] if r else [], "exhaustive": False}
+
+
+REG.bounded_check("bounded#lexer_time_budget_on_adversarial_inputs", P, _bounded_time,
+                  note="stand-in for the cost clause (running time is not modelled by the contracts): catastrophic regex back-tracking / super-linear scanning shows up as a blown 4 s budget")
+
 ASSUMES = ["A-PY", "A-INST", "A-RE", "A-DJ"]
 NOT_COVERED = [
-    "NOT APPLICABLE sub-clauses: quadratic TIME bound and regex back-tracking (cost semantics of `str +=` and of `re` are not modelled)",
+    "the quadratic TIME bound and regex back-tracking are NOT decided deductively (cost semantics of `str +=` and of `re` are not modelled); a bounded time-budget stand-in on adversarial inputs runs instead and is reported under coverage.bounded",
     "parse_tag is only covered by the bounded stand-in (stated bound in coverage.bounded), not proved",
 ]
